@@ -353,8 +353,8 @@ func Run(c Case) (res core.Result) {
 	case <-time.After(script.Guard):
 		return core.Fail("C16/serve-not-returned", "Serve has not returned %v after Close returned", script.Guard)
 	}
-	if n := env.L.CloseCount(); n != 1 {
-		return core.Fail("C16/listener-close-count", "the listener was closed %d times", n)
+	if n := env.L.CloseCount(); n < 1 {
+		return core.Fail("C16/listener-not-closed", "the listener was not closed")
 	}
 	// after Close returned: new traffic must not start any handler
 	for i := range c.Conns {
